@@ -118,13 +118,26 @@ class History:
                 parts['utxos'] = sorted((self.tid(u['txid']), u['output_n'], u['value']) for u in w.utxos())
             elif what == 'balance':
                 parts['balance'] = w.balance()
+                # the same question with the account and / or network named (single-account histories: the same answer)
+                how = rng.choice(['network', 'account', 'both', None])
+                if how:
+                    kw = {}
+                    if how in ('network', 'both'):
+                        kw['network'] = w.network.name
+                    if how in ('account', 'both'):
+                        kw['account_id'] = w.default_account_id
+                    other = w.balance(**kw)
+                    self.ctx.count('balance-with:' + how)
+                    if other != parts['balance']:
+                        parts['balance'] = other          # the model comparison below reports it
+                        self.named_balance_problem = {'kwargs': kw, 'answer': int(other)}
             elif what == 'keys':
                 parts['keys'] = sorted((k.id, int(k.balance)) for k in self.all_keys(w) if k.balance)
             else:
                 fresh = self.open()
                 parts['fresh_keys'] = sorted((k.id, int(k.balance)) for k in self.all_keys(fresh) if k.balance)
                 parts['fresh_utxos'] = sorted((self.tid(u['txid']), u['output_n'], u['value']) for u in fresh.utxos())
-                parts['fresh_balance'] = fresh.balance()
+                parts['fresh_balance'] = fresh.balance(network=fresh.network.name) if rng.random() < 0.5 else fresh.balance()
         u = ','.join('%d-%d-%d' % x for x in parts['utxos'])
         fmt = lambda bal, ut, kb: '%s/%d/%s/%s' % (status, int(bal), ','.join('%d-%d-%d' % x for x in ut), ','.join('%d-%d' % x for x in kb))
         main = fmt(parts['balance'], parts['utxos'], parts['keys'])
@@ -145,20 +158,35 @@ class History:
         outs = ['%d-%s' % (o.value, a2k.get(o.address, 'x')) for o in t.outputs]
         return ','.join(ins), ','.join(outs)
 
+    def parse_inputs(self, raw_hex):
+        from bitcoinlib.transactions import Transaction
+        try:
+            return Transaction.parse_hex(raw_hex, strict=False).inputs
+        except Exception:
+            return []
+
     def op_add(self):
         rng = self.rng
         k = rng.choice(self.spendable_addresses())
-        if self.stubs and rng.random() < 0.15:
+        spent_pts = [(i.prev_txid.hex(), i.output_n_int) for (_, raw_, _, _) in self.sent[-3:]
+                     for i in self.parse_inputs(raw_)]
+        respent = False
+        if spent_pts and rng.random() < 0.25:
+            txid, n = rng.choice(spent_pts)          # the provider still lists an outpoint this wallet has spent already
+            respent = True
+            self.ctx.count('add:already-spent-outpoint')
+        elif self.stubs and rng.random() < 0.15:
             txid, n = rng.choice(self.stubs)         # the same outpoint again (confirmations update)
         else:
             txid = '%064x' % rng.getrandbits(200)
             if self.stubs and rng.random() < 0.2:
                 txid = rng.choice(self.stubs)[0]     # another output of a known transaction
-            n = rng.randrange(3)
+            n = rng.choice([0, 1, 2, 3, 5, 7])
         val = rng.choice([546, 600, 10000, 50000, 123456, 10 ** 6, 2 * 10 ** 8])
         conf = rng.choice([0, 1, 6, 100])
         self.w.utxo_add(k.address, val, txid, n, confirmations=conf)
-        self.stubs.append((txid, n))
+        if not respent:
+            self.stubs.append((txid, n))         # (a provider never invents further outputs of the wallet's own transactions)
         self.record('add.%d.%d.%d.%d.%d' % (k.id, val, self.tid(txid), n, conf), 'ok', 'utxo_add(key %d, %d, %s.., %d, conf=%d)' % (k.id, val, txid[:8], n, conf))
 
     def finish_send(self, t, descr):
@@ -293,6 +321,14 @@ class History:
                                                                     'raw_equal': t.raw_hex() == raw, 'txid': t.txid}))
 
     def run(self):
+        # the library draws from the global generators (change amounts, output order): seeded per history, so that a history replays
+        import random as _random
+        _random.seed('lib/%s/%s/%s' % (self.ctx.seed, self.kind, self.hseed))
+        try:
+            import numpy as _np
+            _np.random.seed(_random.getrandbits(32))
+        except ImportError:
+            pass
         self.create()
         rng = self.rng
         for _ in range(3):
